@@ -316,7 +316,7 @@ def Api.exec (a : Api) (c : Call) : Api × Resp :=
   | .keys => (a, ⟨[], .out (keys a.s).2⟩)
   | .adv d => ({ a with s := (tick a.s d).1 }, ⟨[], .ok⟩)
   | .expire d h0 =>
-    let (s1, o) := step a.s (.expire d (List.range' h0 supplyLen))
+    let (s1, o) := step a.s (.expire (cutoffOf a.s d) (List.range' h0 supplyLen))
     match o with
     | .list hs => ({ a with s := s1 }, ⟨[], .handles (hs.map fun h => (h, keyOf s1 h))⟩)
     | o => ({ a with s := s1 }, ⟨[], .out o⟩)
